@@ -530,7 +530,12 @@ write_call_args(std::ostream &call, const vector_string &pexprs) const {
 
   for (pn = _first_true_parameter;
        pn < num_parameters; ++pn) {
-    nassertd(pn < _parameters.size()) break;
+    if (pn >= _parameters.size()) {
+      // More expressions than parameters: a slot function (__traverse__,
+      // __getbuffer__, ...) declared with fewer parameters than the slot
+      // passes.
+      break;
+    }
     call << separator;
     _parameters[pn]._remap->pass_parameter(call, get_parameter_expr(pn, pexprs));
     separator = ", ";
